@@ -5,6 +5,7 @@ package main
 import (
 	"fmt"
 	"sort"
+	"strconv"
 	"strings"
 	"unicode/utf8"
 
@@ -447,6 +448,80 @@ func streamC16(r *Rand, n int, o *Out) {
 			h.Parse(gopher, in3)
 			if err != nil || u.Href(false) != "gopher://example.com/b" {
 				orc.Fail("C16", "added-special-scheme", "gopher did not get default-port elision and special-scheme parsing", tokOf())
+			}
+		}
+		if rr.P(30) {
+			// an added special scheme — any name, any default port including none and 0 — gets special-scheme parsing and elision
+			// of exactly its own default port (the port is compared as a number: leading zeros do not matter; no default, nothing elided
+			// but the empty port)
+			orc.Eval("C16")
+			name := rr.Pick([]string{"gopher", "ipfs", "x-y", "a+b.c", "h2"})
+			dflt := rr.Pick([]string{"", "", "0", "7", "70", "65535"})
+			tbl := map[string]string{}
+			for k, v := range gopherSchemes {
+				tbl[k] = v
+			}
+			delete(tbl, "gopher")
+			tbl[name] = dflt
+			cfg := newCfg("specialSchemes+"+name+"="+dflt, url.NewParser(url.WithSpecialSchemes(tbl)), 0, 0)
+			ports := []string{"", "0", "00", "1", "80", "65535", "65534"}
+			if dflt != "" {
+				n, _ := strconv.Atoi(dflt)
+				ports = append(ports, dflt, "0"+dflt, dflt, "000"+dflt)
+				if n < 65535 {
+					ports = append(ports, strconv.Itoa(n+1))
+				}
+			}
+			port := rr.Pick(ports)
+			spell := name
+			if rr.P(30) {
+				spell = strings.ToUpper(name)
+			}
+			in4 := spell + "://EXAMPLE.com:" + port + "\\a\\..\\b"
+			u, err := cfg.Parser.Parse(in4)
+			k := h.Parse(cfg, in4)
+			wantPort := ""
+			if port != "" {
+				n, _ := strconv.Atoi(port)
+				wantPort = strconv.Itoa(n)
+				if dflt != "" {
+					if d, _ := strconv.Atoi(dflt); d == n {
+						wantPort = ""
+					}
+				}
+			}
+			want := name + "://example.com"
+			if wantPort != "" {
+				want += ":" + wantPort
+			}
+			want += "/b"
+			if err != nil || u.Href(false) != want || u.Port() != wantPort || !u.IsSpecialScheme() {
+				got := "error"
+				if err == nil {
+					got = u.Href(false)
+				}
+				orc.Fail("C16", "added-special-scheme", fmt.Sprintf("table entry %s=%q: %s parses to %s, expected %s", name, dflt, q(in4), got, want), tokOf())
+			}
+			// the setters and a resolution follow the same table
+			if err == nil && k >= 0 && rr.P(50) {
+				p2 := rr.Pick(ports)
+				h.Set(k, 5, p2)
+				u = h.urls[k]
+				w2 := wantPort
+				if p2 == "" {
+					w2 = ""
+				} else {
+					n, _ := strconv.Atoi(p2)
+					w2 = strconv.Itoa(n)
+					if dflt != "" {
+						if d, _ := strconv.Atoi(dflt); d == n {
+							w2 = ""
+						}
+					}
+				}
+				if u.Port() != w2 {
+					orc.Fail("C16", "added-special-scheme", fmt.Sprintf("table entry %s=%q: SetPort(%q) gives port %q, expected %q", name, dflt, p2, u.Port(), w2), tokOf())
+				}
 			}
 		}
 		o.EmitHist("g", h)
